@@ -167,6 +167,10 @@ struct Scenario {
     /// prints its environment (see `SpawnProbe`).  Executed in order on ONE authority process.
     #[serde(default)]
     spawns: Vec<SpawnProbe>,
+    /// the authority's PATH has no `bash`: the shell tool falls back to `$SHELL -c` / `sh -c` (rip-tools shell.rs run_bash ->
+    /// run_shell_with_args, the second caller of run_command)
+    #[serde(default)]
+    nobash: bool,
 }
 /// One subprocess spawn of the authority.  The spawn sites of /repo: rip-tools builtins/shell.rs `run_command` (the `bash` tool and
 /// its alias `shell`: by tool command envelope on the session path, or on the provider's request in a run), ripd tasks/pipes.rs
@@ -1698,7 +1702,20 @@ fn run_once(sc: &Scenario, key: &str, hdr: &str, num: &str) -> RunOut {
     let mut cmd = std::process::Command::new("timeout");
     cmd.arg("900").arg(exe).arg("--child").arg(&spec_path);
     cmd.env_clear();
-    cmd.env("PATH", std::env::var("PATH").unwrap_or_else(|_| "/usr/bin:/bin".into()));
+    if c.nobash {
+        // a PATH with everything the probes use except bash
+        let bin = root.join("nobash-bin");
+        std::fs::create_dir_all(&bin).unwrap();
+        for tool in ["sh", "env", "printenv", "cat", "tr", "dd", "timeout", "sort"] {
+            let real = std::env::var("PATH").unwrap_or_default().split(':').map(|d| Path::new(d).join(tool)).find(|p| p.exists());
+            if let Some(real) = real {
+                let _ = std::os::unix::fs::symlink(real, bin.join(tool));
+            }
+        }
+        cmd.env("PATH", &bin);
+    } else {
+        cmd.env("PATH", std::env::var("PATH").unwrap_or_else(|_| "/usr/bin:/bin".into()));
+    }
     cmd.env("HOME", root.join("home"));
     if c.config_home {
         cmd.env("RIP_CONFIG_HOME", root.join("cfghome"));
@@ -3140,6 +3157,24 @@ fn gen_spawngrid(rng: &mut Rng, kind: u8, g: u64, seed: u64, full: bool) -> Scen
             sc.spawns.push(grid_probe(4, form, e, g + seed, name));
             sc.channel = "spawn-grid:pty".into();
         }
+        3 => {
+            // no bash on the authority's PATH: the shell tool's fallback (`$SHELL -c` / `sh -c`)
+            sc.nobash = true;
+            sc.real_authority = g % 2 == 1;
+            if g % 3 == 1 {
+                sc.env.push(("SHELL".into(), "sh".into()));
+            }
+            for k in 0..6u64 {
+                let t = g * 6 + k;
+                let form = match k % 3 {
+                    0 => 0,
+                    1 => 1 + ((t + seed) % 6) as usize,
+                    _ => 7 + ((t + seed) % 3) as usize,
+                };
+                sc.spawns.push(grid_probe(k % 2, form, (t / 2 + g) % N_ENV_KINDS, t + seed, name));
+            }
+            sc.channel = "spawn-grid:shell-fallback (no bash)".into();
+        }
         _ => {
             sc.cli = true;
             sc.thread = true;
@@ -3473,6 +3508,7 @@ fn main() {
         Some(k) => [k, k, k.min(2)],
         None => if full { [27, 60, 6] } else { [8, 18, 2] },
     };
+    let n_nobash: u64 = if n_spawn[0] == 0 { 0 } else if full { 6 } else { 2 };
     let grid = |rng: &mut Rng, scenarios: &mut Vec<Scenario>| {
         for i in 0..n {
             scenarios.push(gen_scenario(rng, i));
@@ -3483,8 +3519,11 @@ fn main() {
     }
     for (kind, n) in n_spawn.iter().enumerate() {
         for g in 0..*n {
-            scenarios.push(gen_spawngrid(&mut rng, kind as u8, g, args.seed, full));
+            scenarios.push(gen_spawngrid(&mut rng, if kind == 2 { 4 } else { kind as u8 }, g, args.seed, full));
         }
+    }
+    for g in 0..n_nobash {
+        scenarios.push(gen_spawngrid(&mut rng, 3, g, args.seed, full));
     }
     for j in 0..n_multi {
         // quick: the four main combinations for every config slot, then one of each remaining combination
